@@ -155,15 +155,29 @@ def policyYearSpec (tol : Rat) (input output : List Cell) : Bool :=
       optClose tol (sumData (ins.filterMap fun c => (c.values.get? f).map vdata))
                    (sumData (outs.filterMap fun c => (c.values.get? f).map vdata))
 
-/-- contract of the share table (DESIGN §7 C18: "row sums positive"): every accident period of every
-slice receives a share from at least one policy year. It fails only when issuance is not
-continuous and the policies written in the first month of each policy year do not reach some
-accident period (`policy_length_months < 11`): the code then drops that period's amounts. -/
+/-- contract of the share table (DESIGN §7 C18: "row sums positive"): in every slice the normalised
+shares of every accident period over the policy years sum to 1 (i.e. the raw total is not 0). It
+fails only when issuance is not continuous and the policies written in the first month of each
+policy year do not reach some accident period (`policy_length_months < 11`): the code then drops
+that period's amounts. -/
 def policyCovered (input : List Cell) (policyLen : Nat) (origin : Date) (continuous : Bool) : Bool :=
   (Triangle.slices input).all fun sl =>
     match policyYearsCovered sl.2 origin with
-    | .ok pys => (aqShares (periods sl.2) pys policyLen continuous).all fun row => !row.2.isEmpty
+    | .ok pys => (aqShares (periods sl.2) pys policyLen continuous).all fun row =>
+        (row.2.map (·.2)).sum == 1
     | .error _ => true
+
+/-! ### totals (vocabulary of the conservation theorems) -/
+
+/-- the `i`-th number of a value (0 beyond its length) -/
+def comp (v : Val) (i : Nat) : Rat := ((vdata v)[i]?).getD 0
+
+/-- the `i`-th number of field `f` of a cell (0 if the cell has no such field) -/
+def cellField (c : Cell) (f : String) (i : Nat) : Rat :=
+  ((c.values.filter (·.1 == f)).map fun kv => comp kv.2 i).sum
+
+/-- total of the `i`-th number of field `f` over a list of cells -/
+def total (cells : List Cell) (f : String) (i : Nat) : Rat := (cells.map (cellField · f i)).sum
 
 /-! ### premium pattern -/
 
